@@ -8,6 +8,7 @@ import (
 	"math/rand"
 	"reflect"
 	"sort"
+	"strings"
 	"sync"
 	"sync/atomic"
 	"time"
@@ -209,7 +210,9 @@ func runC20Script(w *World, name string, script []c20Step) {
 				if r.pkg != nil {
 					content = string(r.pkg.Files["manifest.yaml"])
 				}
-				ret = append(ret, map[string]any{"caller": r.caller, "err": r.err != nil, "hasPkg": r.pkg != nil, "content": content})
+				// the scripted pull stamps the content with the image it was called for
+				ret = append(ret, map[string]any{"caller": r.caller, "err": r.err != nil, "hasPkg": r.pkg != nil, "content": content,
+					"ofImage": r.pkg == nil || strings.HasSuffix(content, "-of-"+st.Image)})
 			}
 			// mutation test: scribbling over one caller's copy must not change another's
 			if len(got) > 1 && got[0].pkg != nil && got[1].pkg != nil {
